@@ -89,6 +89,10 @@ def build_net(n, order, stagger, seed):
 def join_violation(res, info, n, order, stagger, seed):
     """A network that cannot even be built is reported by the property's first clause ("nodes that have joined")."""
     rep = {'half': 'join', 'n': n, 'order': order, 'stagger': stagger, 'seed': seed}
+    if info['stuck'] or not info['all_joined']:
+        res.count('executions')          # the join itself is the (failed) execution
+        res.count('evaluations')
+        res.distinct_add('states', ('join', n, tuple(order), stagger))
     if info['stuck']:
         res.violation({'kind': 'join-never-quiesces', 'n': n},
                       f'virtual time stuck at {info["vtime"]} s after {info["datagrams"]} datagrams: an exchange started '
